@@ -24,7 +24,7 @@ LEVEL = 'fault_enumeration'
 RUN_TIMEOUT = 120.0
 MAX_SITES = 16
 CHUNK = 10
-TIERS = {'quick': dict(runs=2400, budget_s=240), 'thorough': dict(runs=40000, budget_s=1500)}
+TIERS = {'quick': dict(runs=2400, budget_s=240), 'thorough': dict(runs=150000, budget_s=1500)}
 RULE = ('each evaluation is one seeded tree (four harness classes: printer with / without trailing_comment '
         'support, registered by predicate, registered by name + subclass; built-in containers; comment()/'
         'trailing_comment() wrappers; shared children; per-tree knob: bundled printers of list/tuple/dict '
